@@ -830,8 +830,11 @@ impl TypedExpr {
                 let x = x.compile(prg, env, circuit);
                 assert_eq!(x.len(), 1);
                 let panic_before_y = circuit.peek_panic().clone();
-                let y = y.compile(prg, env, circuit);
+                // `y` is only evaluated if `x` is true, so its assignments must only be visible in that case:
+                let mut env_y = env.clone();
+                let y = y.compile(prg, &mut env_y, circuit);
                 assert_eq!(y.len(), 1);
+                *env = circuit.mux_envs(x[0], env_y, env.clone());
 
                 let panic = circuit.mux_panic(x[0], &circuit.peek_panic().clone(), &panic_before_y);
                 circuit.replace_panic_with(panic);
@@ -842,8 +845,11 @@ impl TypedExpr {
                 let x = x.compile(prg, env, circuit);
                 assert_eq!(x.len(), 1);
                 let panic_before_y = circuit.peek_panic().clone();
-                let y = y.compile(prg, env, circuit);
+                // `y` is only evaluated if `x` is false, so its assignments must only be visible in that case:
+                let mut env_y = env.clone();
+                let y = y.compile(prg, &mut env_y, circuit);
                 assert_eq!(y.len(), 1);
+                *env = circuit.mux_envs(x[0], env.clone(), env_y);
 
                 let panic = circuit.mux_panic(x[0], &panic_before_y, &circuit.peek_panic().clone());
                 circuit.replace_panic_with(panic);
